@@ -21,7 +21,7 @@ const techFold = "conditional constant propagation over go/ssa with the paramete
 
 var properties = map[string]*propDef{
 	"C01": {
-		Rules:       []string{"APPLY", "TAB-NOTE", "TAB-DEGREE", "TAB-NOTATION", "TAB-CHORDS", "TAB-ATTRS", "TAB-DEFAULTS", "EXTENDS", "PLAYLOOP", "NOTE", "OPT", "LOOKUP", "OVERRIDE", "NARROW", "WIRE"},
+		Rules:       []string{"APPLY", "TAB-NOTE", "TAB-DEGREE", "TAB-NOTATION", "TAB-CHORDS", "TAB-ATTRS", "TAB-DEFAULTS", "EXTENDS", "PLAYLOOP", "NOTE", "OPT", "LOOKUP", "OVERRIDE", "NARROW", "BUILDER", "WIRE"},
 		Technique:   "affine-form dataflow on play.Key.Apply (pitch = 60 + tonic + degree + attribute / + base - 12) plus " + techTab,
 		Explanation: "the pitch arithmetic as an affine identity of Key.Apply (exactly one bass emission MiddleC+key+degree+base-12 and one tone emission MiddleC+key+degree+attribute per attribute, nothing else; every failed lookup is an error); every row of the letter, accidental, interval-size, chord and attribute tables against a first-principles specification, including the size algorithm for 1..64 x 7 qualities on the extracted model; MiddleC folds to 60 and the default bass to a unison; `extends` is inherited parent-first; the key in force is the one applied by update() before getKey() in the same iteration; flags override instance 0 only; one note-on per key.",
 		NotDecided:  "that the control flow of Degree.simpleSemitone implements the algorithm whose tables and tuples were extracted (the search loop itself is not proved); uint8 wrap-around outside the MIDI range (excluded by the property's premise); everything inside gomidi.",
@@ -34,18 +34,18 @@ var properties = map[string]*propDef{
 	},
 	"C03": {
 		Rules:       []string{"TAB-KEYSIG", "TAB-NOTE", "TAB-DEGREE", "TAB-SEARCH", "SCALEWIRE", "CONVORDER", "ERRFLOW", "ERRDROP", "WIRE", "NAMEDEGREE"},
-		Technique:   techTab + "; op.ScaleNote.GetDegree decided on its whole 21 x 21 x 2 domain by " + techFold + " (narrow claim: preconditions and the degree search)",
-		Explanation: "only the table preconditions of the conversion: in all 28 signature rows the tonic built by NewScale carries the key's own accidental; letter pitches, accidental offsets and interval sizes are right; both quality-search lists contain major/perfect, minor/diminished and augmented (what the seven diatonic notes and tritone basses need); Tendency folds to the documented result on all 16 input pairs; NewScale applies a row as sharp/flat/natural correctly.",
-		NotDecided:  "the search in ScaleNote.GetDegree and the letter distance in Name.GetDegree over the 12,936-case product: that is an enumeration over runtime values, nothing sound can be said about it statically with the tools in reach. Most signature-row corruptions do not affect this property at all (only the tonic's accidental matters); they are C13's business.",
+		Technique:   techTab + "; astconv.SyllableChordConverter.Convert decided on the property's whole domain (28 keys x 21 roots x no bass + 21 basses = 12,936 single chords) and op.ScaleNote.GetDegree on its 21 x 21 x 2 domain by " + techFold,
+		Explanation: "the statement itself on its stated domain, decided from the source: for each of the 28 supported keys op.NewScale is folded on the key and Convert is folded on a syntax tree built for every root spelling and every bass spelling (token methods answered from the tree, everything else the repository's own code); every successful result is compared with the checker's own arithmetic (number = letter distance, size = pitch distance from the tonic, the bass from the root), the seven notes of the key's own scale must be accepted as roots and as basses over one another, a written bass must give a base, the symbol must be the written one, and the scale must be left as it was. Around it: the table preconditions (signature rows, letter pitches, accidental offsets, interval sizes, search lists, Tendency), how --key and {key=...} reach the converter (getKey as given, getScale through NewScale, Modify applies every setting of a block, changeScale before the carrying chord, one converter per conversion, no other ChordConverter, no converter state beyond the scale).",
+		NotDecided:  "the lexer and parser in front of the converter (C04, C11) and the YAML printer behind it (C10) are other properties' business; when Convert or NewScale stops folding (a construct the folder has no transfer for) the decision falls back to data-flow facts on the converter's functions, which say how it is put together, not what it computes.",
 	},
 	"C04": {
-		Rules:       []string{"GEN-YACC", "TOKENS", "LEXMODE", "PARSEERR", "EOFPRED", "UNDERSCORE", "ERRDROP", "ERRFLOW"},
+		Rules:       []string{"GEN-YACC", "TOKENS", "LEXMODE", "PARSEERR", "EOFPRED", "UNDERSCORE", "ERRDROP", "ERRFLOW", "RECUR", "WIRE"},
 		Technique:   "goyacc regeneration with AST comparison, token-set agreement between grammar and lexer, lexer-mode typestate on SSA, the lexer's rune -> token decision and digit class by folding ScanFunc / scanDigits with Peek() bound to probe runes, constant folding of loop predicates at EOF",
 		Explanation: "the shipped parser is AST-equal to what goyacc generates from chords.y and the grammar has 0 conflicts (so, trusting goyacc, it accepts exactly L(chords.y) over token strings); every terminal the rules use is produced by the lexer and nothing undeclared is; white space is discarded before every token, `;` skips to end of line, `{`/`}` and `_` switch the lexer modes and the modes are cleared again; a parser failure cannot be swallowed: parseText returns the lexer's error and every caller tests it before touching the tree (default reductions may store a result for a text that is then rejected); every lexer loop predicate is false at end of input, so a text cut inside a symbol, comment or metadata run terminates and is rejected; the grammar actions list each field from the right position.",
 		NotDecided:  "that the rune classes of scanSymbol / scanMetadata match an external description (the code is the documentation there); bounded-exhaustive acceptance against an independent recogniser.",
 	},
 	"C05": {
-		Rules:       []string{"CONVORDER", "CLASSIFY", "APPLY", "PLAYLOOP", "OPT", "TAB-KEYSIG", "SCALEWIRE", "TAB-NOTE", "OVERRIDE", "WIRE", "NAMEDEGREE"},
+		Rules:       []string{"CONVORDER", "CLASSIFY", "APPLY", "PLAYLOOP", "OPT", "TAB-KEYSIG", "SCALEWIRE", "TAB-NOTE", "OVERRIDE", "CODEC", "WIRE", "NAMEDEGREE"},
 		Technique:   techPath + ": call ordering in ASTConverter.Convert, linearity of Key.Apply in the tonic",
 		Explanation: "a `{key=...}` change is applied (metadata -> instance -> scale switch) before the carrying chord is converted, for chords and for rests, with every error returned, and the new scale persists (pointer receiver); mixed notation is refused before anything is converted; the second sentence restricted to pitches: in Key.Apply the tonic has coefficient 1 in every emitted pitch and occurs nowhere else, so changing the key shifts every pitch by the tonic distance; the only other key-dependent output is the key-signature event.",
 		NotDecided:  "the first sentence as stated: equality of the two converters' outputs over all progressions is a relation between two computations over runtime values.",
@@ -57,43 +57,43 @@ var properties = map[string]*propDef{
 		NotDecided:  "the invariant itself as a statement about all histories (it would need an inductive proof over heap state); only the premises a hand proof uses are checked.",
 	},
 	"C07": {
-		Rules:       []string{"TAB-DYNAMICS", "TAB-DEFAULTS", "TAB-KEYSIG", "SCALEWIRE", "OPT", "OPMAP", "PENDING", "NARROW", "PLAYLOOP", "OVERRIDE", "FLAGS", "REJECT", "WIRE"},
+		Rules:       []string{"TAB-DYNAMICS", "TAB-DEFAULTS", "TAB-KEYSIG", "SCALEWIRE", "OPT", "OPMAP", "PENDING", "NARROW", "PLAYLOOP", "OVERRIDE", "FLAGS", "REJECT", "TRACKADD", "WIRE"},
 		Technique:   techTab + "; " + techPath + " for the Opt typestate and the writer wiring",
 		Explanation: "the dynamics table is strictly increasing within 1..127; defaults are 100 bpm, 4/4, C and a dynamic that has a velocity, each cell starting `updated` so that it is emitted at tick 0; Opt cells emit on first use and after every Update only; update() stores every non-nil setting of an instance (exhaustive over the struct's pointer fields); bpm/meter/key/meta cells are wired to Tempo / Meter(Num, Denom) / Key(tonic, !Minor, Flat+Sharp, Flat>0) / Text-Lyric-Marker by txt-lic-mrk with the text passed unmodified; each op calls the gomidi constructor the SMF spec names; control events consume the pending delta so they land at the instance start (also on rests, since update/emit precede the rest branch); flags override instance 0 only and every getter reads a flag of the right name and type on every command it runs for; meter values that do not fit a MIDI time signature are refused by validate.",
 		NotDecided:  "microseconds-per-quarter arithmetic and denominator encoding (gomidi); UTF-8 byte identity through yaml.v3.",
 	},
 	"C08": {
-		Rules:       []string{"NOTE", "PLAYLOOP", "PENDING", "SELECT", "OPMAP", "TRACKCOUNT", "TAB-DYNAMICS", "REJECT", "WIRE", "IOLAYER"},
+		Rules:       []string{"NOTE", "PLAYLOOP", "PENDING", "SELECT", "OPMAP", "TRACKCOUNT", "TRACKADD", "TAB-DYNAMICS", "REJECT", "WIRE", "IOLAYER"},
 		Technique:   techPath + ": on/off pairing, Close post-domination, meta ops only via MetaTrack",
 		Explanation: "crd's side of the SMF contract: every track is closed exactly once, after the last instance, and nothing is written after it; every note-on has a note-off of the same key and channel in the same call; tempo / time / key signature ops are created only through addMeta, MetaTrack maps to track 0 only, fixed ops never reach track 0 when N >= 2; N tracks are built and all are serialised with Add's error propagated; velocities <= 127.",
 		NotDecided:  "header bytes, chunk lengths, variable-length quantities and data-byte masking: gomidi, trusted.",
 	},
 	"C09": {
-		Rules:       []string{"EXIT", "EOFPRED", "NILOK", "VALIDATE", "REJECT", "MUST", "RECUR", "ERRDROP", "ERRFLOW", "FLAGS", "NARROW", "LOOKUP", "DEBUGOUT", "PLAYLOOP", "APPLY", "CONC", "SELECT", "SCALEWIRE", "CLASSIFY", "PARSEERR", "TAB-REGEX", "WIRE"},
+		Rules:       []string{"EXIT", "EOFPRED", "NILOK", "VALIDATE", "REJECT", "MUST", "RECUR", "ERRDROP", "ERRFLOW", "FLAGS", "NARROW", "LOOKUP", "DEBUGOUT", "PLAYLOOP", "APPLY", "CONC", "SELECT", "SCALEWIRE", "CLASSIFY", "PARSEERR", "TAB-REGEX", "CIRCLEWIRE", "WIRE", "CODEC"},
 		Technique:   "inventory and path rules over every site of a failure class: exit status, loop predicates at EOF, decode-without-validate, (nil,true) lookups, panicking wrappers on untrusted data, recursion cycles, dropped errors",
 		Explanation: "seven failure classes, each for every site in the program: a failed Execute reaches os.Exit(non-zero); every NextWhile/DiscardWhile predicate folds to false at EOF; every decoder/constructor of a validated type validates before returning nil and each validator refuses the documented nonsense (0 durations, tempo 0, unknown dynamic, no durations); no lookup returns (nil, true); every function that can panic is in a reviewed inventory and every call site of a Must* wrapper is an initialiser, constant, or reviewed with a checked invariant; every call-graph cycle and condition-only loop has a reviewed termination measure (cyclic `extends` is rejected by validate, checked structurally); no error of a repo function or of yaml/io/os decoding is discarded; unknown chords, unknown keys, mixed notation and syntax errors are errors before anything is produced.",
 		NotDecided:  "absence of implicit run-time panics in general (index, nil, division); `promptly` as a quantitative statement; the behaviour of cobra / yaml.v3 on malformed flags or YAML.",
 	},
 	"C10": {
-		Rules:       []string{"SCHEMA", "CODEC", "TAB-NOTATION", "TAB-REGEX", "TAB-DYNAMICS", "TAB-DEGREE", "BASE10", "VALIDATE", "NARROW", "OPT", "APPLY", "LOOKUP", "WIRE"},
+		Rules:       []string{"SCHEMA", "CODEC", "TAB-NOTATION", "TAB-REGEX", "TAB-DYNAMICS", "TAB-DEGREE", "BASE10", "VALIDATE", "NARROW", "OPT", "APPLY", "LOOKUP", "OPMAP", "OVERRIDE", "WIRE"},
 		Technique:   "YAML schema comparison of producer and consumer types, Marshal/Unmarshal pairing, printer/parser table agreement",
 		Explanation: "what `text conv` and `write conv` hand to the YAML encoder has the key tree and scalar types `write` decodes (yaml.v3 silently ignores unknown keys, which is how this breaks); every scalar reachable from input.Instance has both directions, the decoders read the scalar text with the parser and the encoders print with String; printers and parsers share their tables (inverse maps built from the forward maps, notation marks longest-first, regex classes = printer alphabets, `/` separator numerator first, bare number = denominator 1, minor mark from capture 3); numerals are base 10.",
 		NotDecided:  "Parse(String(v)) == v for all values (a bijection over a value space); YAML quoting of arbitrary text (yaml.v3).",
 	},
 	"C11": {
-		Rules:       []string{"SPELL", "LEXMODE", "UNDERSCORE", "BASE10", "TOKENS", "EOFPRED", "ERRDROP", "WIRE"},
+		Rules:       []string{"SPELL", "LEXMODE", "UNDERSCORE", "BASE10", "TOKENS", "EOFPRED", "ERRDROP", "PARSEERR", "WIRE"},
 		Technique:   "lexer spelling table vs. consumer tables, type-dispatch check on every consumer of the accidental token",
 		Explanation: "the second sentence for every consumer: each use of ChordDegree.Accidental goes through the canonicaliser that dispatches on the token type, whose outputs (# and b) are spellings every consumer table understands, so every spelling the lexer accepts is honoured identically; trivia is discarded before every token and comments skip to end of line; `symbol: simple_symbol` and `symbol: UNDERSCORE simple_symbol` build the same node; numerals are base 10 so leading zeros do not change the value.",
 		NotDecided:  "byte identity of two runs' output (a relation over pairs of inputs); white space inside `{...}` (the lexer keeps inner spaces of metadata by design).",
 	},
 	"C12": {
-		Rules:       []string{"MAPORDER", "CONC", "NONDET", "IOLAYER", "DEBUGOUT", "TAB-DEGREE"},
+		Rules:       []string{"MAPORDER", "CONC", "NONDET", "IOLAYER", "DEBUGOUT", "TAB-DEGREE", "TAB-CIRCLE"},
 		Technique:   "interprocedural order-taint analysis from map ranges to data sinks over go/ssa, plus inventories of goroutines, nondeterminism sources and I/O sites",
 		Explanation: "for the enumerated sources of nondeterminism none reaches a data sink: map-iteration order (ranges over maps, maps.Keys/Values/All, functions summarised as returning map-ordered data) is tracked through values, stores, closures and range-over-func bodies to yaml.Marshal, writes and MIDI writer calls, with sorts and set construction as sanitisers and early exits justified by table invariants; the single goroutine is a single-producer FIFO closed on every path; no clock/random/environment/pid source and no %p; stdin/stdout/files only through the helpers, both input branches feed one callback, every data command writes through getOutput. Given the trusted base this is close to the whole property: a Go program without those sources is a function of its input.",
 		NotDecided:  "sources outside the list (unsafe, cgo, finalisers - none present); the operating system.",
 	},
 	"C13": {
-		Rules:       []string{"TAB-KEYSIG", "SCALEWIRE", "TAB-REGEX", "OPT", "ERRFLOW", "WIRE"},
+		Rules:       []string{"TAB-KEYSIG", "SCALEWIRE", "TAB-REGEX", "OPT", "ERRFLOW", "OPMAP", "WIRE"},
 		Technique:   techTab + ": 28 signature rows against signatures derived from the step patterns",
 		Explanation: "every row of the signature table equals the signature derived by walking the major / natural-minor step pattern from the tonic (not copied from a table); the 15 major and 13 minor keys exist; order of flats B E A D G C F by stacking fifths; flats take the first n, sharps the last n; the tonic-to-ring-index table; altered letters of every row equal the derived scale's; NewScale applies a row as stated and refuses keys without a row.",
 		NotDecided:  "NewScale's output as a computed value (it is the composition of checked tables with structurally checked wiring).",
@@ -127,19 +127,20 @@ var properties = map[string]*propDef{
 // wireScope: which wiring functions bear on which property (construct-key prefixes of the WIRE rule).
 var wireScope = map[string][]string{
 	"C01": {"op.Key.Semitone", "note.Note.Semitone", "chord.Attribute.Semitone", "note.NewDegree", "note.ParseDegree", "chord.", "cmd.newChordMap", "cmd.newWriteCmdArgsFromInputInstances", "cmd.writeCmdArgs.writeToPlay"},
-	"C03": {"astconv.", "op.ScaleNote.", "op.Key.Semitone", "op.Scale.", "note.NewDegree", "cmd.getScale", "cmd.textCmdConvSyllable"},
-	"C05": {"astconv.", "op.ScaleNote.", "op.Key.Semitone", "op.Scale.", "note.NewDegree", "note.Note.Semitone", "note.ParseDegree", "chord.Attribute.Semitone", "cmd.getScale", "cmd.textCmdConvSyllable", "cmd.newWriteCmdArgsFromInputInstances", "cmd.writeCmdArgs.writeToPlay"},
+	"C04": {"input/ast.NewToken", "input/ast.NewLexer"},
+	"C03": {"cmd.getKey", "astconv.", "op.ScaleNote.", "op.Key.Semitone", "op.Scale.", "note.NewDegree", "cmd.getScale", "cmd.textCmdConvSyllable"},
+	"C05": {"cmd.getKey", "astconv.", "op.ScaleNote.", "op.Key.Semitone", "op.Scale.", "note.NewDegree", "note.Note.Semitone", "note.ParseDegree", "chord.Attribute.Semitone", "cmd.getScale", "cmd.textCmdConvSyllable", "cmd.newWriteCmdArgsFromInputInstances", "cmd.writeCmdArgs.writeToPlay"},
 	"C06": {"midix.", "cmd.writeCmdArgs.writeToPlay"},
-	"C07": {"astconv.Meta", "astconv.ASTConverter.Convert|meta", "midix.NewTrackOp", "cmd.newWriteCmdArgsFromInputInstances", "cmd.writeCmdArgs.writeToPlay", "cmd.getScale"},
+	"C07": {"cmd.getKey", "astconv.Meta", "astconv.ASTConverter.Convert|meta", "midix.NewTrackOp", "cmd.newWriteCmdArgsFromInputInstances", "cmd.writeCmdArgs.writeToPlay", "cmd.getScale"},
 	"C08": {"midix."},
 	"C09": {"astconv.MetaInstanceModifierImpl.", "note.NewDegree", "note.ParseDegree", "chord.Map."},
 	"C10": {"input.ChordMetaTextMotifier", "cmd.writeCmdConv.RunE", "note.ParseDegree", "note.NewDegree", "cmd.newWriteCmdArgsFromInputInstances", "astconv.ASTConverter.Convert", "astconv.ValuesConverterImpl.", "astconv.MetaConverterImpl."},
-	"C11": {"input/ast.NewToken", "astconv.SyllableChordConverter.newScaleNote", "astconv.DegreeChordConverter.", "astconv.SyllableChordConverter.Convert", "astconv.ValuesConverterImpl.", "cmd.infoCmdChordDescribe.RunE"},
-	"C13": {"op.Scale.", "op.ScaleNote.Semitone", "op.Key.Semitone", "desc.Key.Describe", "cmd.getScale", "cmd.infoKeyCmdDescribe"},
-	"C14": {"cmd.infoKeyCmdConv", "cmd.getScale"},
+	"C11": {"input/ast.NewToken", "input/ast.NewLexer", "astconv.SyllableChordConverter.newScaleNote", "astconv.DegreeChordConverter.", "astconv.SyllableChordConverter.Convert", "astconv.ValuesConverterImpl.", "cmd.infoCmdChordDescribe.RunE"},
+	"C13": {"cmd.getKey", "op.AllScales", "op.Scale.", "op.ScaleNote.Semitone", "op.Key.Semitone", "desc.Key.Describe", "cmd.getScale", "cmd.infoKeyCmdDescribe"},
+	"C14": {"cmd.infoKeyCmdConv", "cmd.getScale", "op.Circle."},
 	"C15": {"desc.Chord.Describe", "cmd.infoCmdChordDescribe", "input.ChordMetaTextMotifier", "note.Note.AddDegree", "note.ParseDegree", "note.NewDegree", "note.Note.Semitone", "chord.Attribute.Semitone", "desc.Attribute.Describe", "cmd.infoCmdAttrDescribe", "cmd.getRootNote", "chord.Map.GetAttribute", "chord.GenerateAttributes"},
 	"C16": {"cmd.genCmdAttr", "chord.", "desc.Chord.Describe", "desc.Attribute.Describe", "cmd.infoCmdChordDescribe", "cmd.newChordMap"},
-	"C17": {"astconv.SyllableChordConverter.", "op.ScaleNote.GetDegree", "desc.Key.Describe", "op.DiatonicChorderImpl.", "cmd.infoKeyCmdDescribe", "op.Scale.", "op.ScaleNote.Semitone", "cmd.getScale", "chord.Map."},
+	"C17": {"cmd.getKey", "astconv.SyllableChordConverter.", "op.ScaleNote.GetDegree", "op.Key.Semitone", "desc.Key.Describe", "op.DiatonicChorderImpl.", "cmd.infoKeyCmdDescribe", "op.Scale.", "op.ScaleNote.Semitone", "cmd.getScale", "chord.Map."},
 }
 
 // otherScope: scopes of other shared rules, property -> rule -> construct-key patterns (prefix, or *substring).
@@ -153,21 +154,25 @@ var otherScope = map[string]map[string][]string{
 	// the search over the interval table ranges over a map: it is deterministic only while exactly one row qualifies
 	// texts and the bass survive the trip through the YAML document
 	// ... and what `write` demands of a chord is no more than what the printers can produce (a degree that has a size)
-	"C10": {"OPT": {"play.midiArgs.writeWhenUpdated|meta"}, "LOOKUP": {"cmd.newWriteCmdArgsFromInputInstances|degree-present"}},
+	"C10": {"OVERRIDE": {"*|sentinel-only-for-zero"}, "OPT": {"play.midiArgs.writeWhenUpdated|meta"}, "LOOKUP": {"cmd.newWriteCmdArgsFromInputInstances|degree-present"}, "OPMAP": {"midix.MIDIWriter.Text", "midix.MIDIWriter.Lyric", "midix.MIDIWriter.Marker", "midix.MetaText.Call", "midix.MetaLyric.Call", "midix.MetaMarker.Call"}},
 	// the same tokens on one long line or on several lines: nothing may be cut silently
 	// ... and the verdict of the parser must reach the exit status on every input path (stdin, `-`, FILE)
-	"C04": {"ERRDROP": {"*bufio.Scanner", "cmd.parseText"}, "ERRFLOW": {"cmd.readFileOrStdin", "cmd.parseText", "cmd.textCmd"}},
+	"C04": {"ERRDROP": {"*bufio.Scanner", "cmd.parseText"}, "ERRFLOW": {"cmd.readFileOrStdin", "cmd.parseText", "cmd.textCmd"}, "RECUR": {"chan|input/ast.", "loop|input/ast.", "cycle|input/ast."}},
 	"C11": {"ERRDROP": {"*bufio.Scanner"}},
 	"C16": {"REJECT": {"chord."}},
+	// an unknown conversion letter anywhere in a chain is refused
+	// ... and a decoder does not succeed without having kept what the document says
+	"C09": {"CIRCLEWIRE": {"op.KeyConversionChain.Convert"}, "CODEC": {"*|keeps"}},
 	// playable in every key: the key signature event is written for every key that has a scale
 	"C17": {"OPT": {"play.midiArgs.writeWhenUpdated|key"}},
 	// the key the piece is played in: --key, when given, is the key of the first instance
-	"C05": {"OVERRIDE": {"cmd.getKey", "cmd.overrideInstanceFromFlags|Key", "cmd.overrideInstanceFromFlags|handed-back", "cmd.overrideInstanceFromFlags|getters"}},
+	"C05": {"CODEC": {"decode|op.Key", "op.Key"}, "OVERRIDE": {"cmd.getKey", "cmd.overrideInstanceFromFlags|Key", "cmd.overrideInstanceFromFlags|handed-back", "cmd.overrideInstanceFromFlags|getters"}},
 	// pitch arithmetic: the integer types pitches, intervals and note numbers are computed in
-	"C01": {"NARROW": {"*Semitone", "*MIDINoteNumber", "*Octave", "*note.Degree", "narrow|int->uint"}},
-	"C12": {"TAB-DEGREE": {"note.Degree.simpleSemitone|adjust", "note.Degree|adjust", "note.Degree.Semitone|order"}},
+	"C01": {"BUILDER": {"chord.Builder.Build"}, "NARROW": {"*Semitone", "*MIDINoteNumber", "*Octave", "*note.Degree", "narrow|int->uint"}},
+	"C12": {"TAB-CIRCLE": {"*|whole-member"}, "TAB-DEGREE": {"note.Degree.simpleSemitone|adjust", "note.Degree|adjust", "note.Degree.Semitone|order"}},
 	// an unknown --key must be refused, not answered with another key's scale
-	"C13": {"ERRFLOW": {"cmd.getScale", "op.NewScale", "cmd.getKey"}},
+	// ... and the key signature written is the key's own
+	"C13": {"ERRFLOW": {"cmd.getScale", "op.NewScale", "cmd.getKey"}, "OPMAP": {"midix.MIDIWriter.Key", "midix.MetaKey.Call"}},
 }
 
 func init() {
